@@ -594,6 +594,10 @@ func (x *c7Exec) step(op drv.Op) (*drv.Violation, error) {
 		if err != nil {
 			return nil, err
 		}
+		hb, err := x.branchReads()
+		if err != nil {
+			return nil, err
+		}
 		if _, err := w.Restart(op.Mode); err != nil {
 			return nil, err
 		}
@@ -604,6 +608,14 @@ func (x *c7Exec) step(op drv.Op) (*drv.Violation, error) {
 		if na != nb {
 			return c7v("restart-graph", "graph differs after restart", "before:\n"+nb+"\nafter:\n"+na), nil
 		}
+		ha, err := x.branchReads()
+		if err != nil {
+			return nil, err
+		}
+		if ha != hb {
+			return &drv.Violation{Prop: "C03", Oracle: "restart-branch-heads", Sig: "restart changed what <root>:<branch> resolves to", Detail: "before:\n" + hb + "\nafter:\n" + ha}, nil
+		}
+		w.Stats.Probe("restart-branch-heads-compared")
 		x.before, x.normB = repos, na
 		return nil, nil
 	default:
@@ -672,6 +684,57 @@ func (x *c7Exec) step(op drv.Op) (*drv.Violation, error) {
 	}
 	x.before, x.normB = repos, na
 	return nil, nil
+}
+
+// branchReads reads through "<root>:<branch>" for every branch name in every repo (master included).
+func (x *c7Exec) branchReads() (string, error) {
+	repos, _, err := x.snapshot()
+	if err != nil {
+		return "", err
+	}
+	var rks []string
+	for ru := range repos {
+		rks = append(rks, ru)
+	}
+	sort.Strings(rks)
+	var reqs []proto.Req
+	for _, ru := range rks {
+		r := repos[ru]
+		if r == nil {
+			continue
+		}
+		seen := map[string]bool{}
+		var names []string
+		for _, n := range r.DAG.Nodes {
+			b := n.Branch
+			if b == "" {
+				b = "master"
+			}
+			if !seen[b] && !strings.ContainsAny(b, " /:?#%") {
+				seen[b] = true
+				names = append(names, b)
+			}
+		}
+		sort.Strings(names)
+		for _, b := range names {
+			reqs = append(reqs, drv.GET("/api/node/"+r.Root+":"+b+"/status"), drv.GET("/api/node/"+r.Root+":"+b+"/kv/key/whoami"))
+		}
+	}
+	if len(reqs) == 0 {
+		return "", nil
+	}
+	if len(reqs) > 24 {
+		reqs = reqs[:24]
+	}
+	resps, err := x.w.Seq(reqs)
+	if err != nil {
+		return "", err
+	}
+	var sb strings.Builder
+	for i, rp := range resps {
+		fmt.Fprintf(&sb, "GET %s -> %d %s\n", reqs[i].URL, rp.Status, trunc(rp.Body))
+	}
+	return sb.String(), nil
 }
 
 func okStr(ok bool) string {
